@@ -31,6 +31,12 @@ Proof.
   destruct (Nat.eqb_spec c0 c) as [->|Hne]; cbn in H; [inversion H; left; reflexivity|right; apply IH; exact H].
 Qed.
 
+Lemma Forall2_in_r : forall {A B} (R : A -> B -> Prop) l m y, Forall2 R l m -> In y m -> exists x, R x y.
+Proof. intros A B R l m y H Hy. induction H as [|a b l m Hab _ IH]; [contradiction|]. destruct Hy as [->|Hy]; [exists a; exact Hab|apply IH; exact Hy]. Qed.
+
+Lemma nonempty_map_match : forall (l : list nat) (g : nat -> nat), l <> [] -> match map g l with [] => false | _ => true end = true.
+Proof. intros l g H. destruct l; [congruence|reflexivity]. Qed.
+
 Lemma in_insert_by_conv : forall {A} (leb : A -> A -> bool) x y l, y = x \/ In y l -> In y (insert_by leb x l).
 Proof.
   intros A leb x y l. induction l as [|z l IH]; cbn; intro H.
@@ -649,6 +655,133 @@ Proof.
   - inversion H; subst ic. reflexivity.
 Qed.
 
+Lemma constraint_f1_all : forall cs' ics', Forall2 (fun c ic => plain_constraint p design c = Some ic) cs' ics' -> Forall kpos cs' ->
+  forallb (constraint_f1 fb) (map (init_wb g) (flat_map (desugar_constraint fds) ics')) = true.
+Proof.
+  intros cs' ics' H Hk. induction H as [|c ic cs' ics' Hcic _ IH]; [reflexivity|]. inversion Hk as [|c0 cs0 Hk1 Hk2].
+  cbn [flat_map]. rewrite map_app, forallb_app. rewrite (constraint_f1_one c ic Hcic Hk1). apply IH. exact Hk2.
+Qed.
+
+Definition not_deriv (c : fconstraint) : bool := match c with FDerivation _ _ _ => false | _ => true end.
+
+Lemma not_deriv_one : forall c ic, plain_constraint p design c = Some ic ->
+  forallb (fun c0 => not_deriv (init_wb g c0)) (desugar_constraint fds ic) = true.
+Proof.
+  intros c ic H. unfold plain_constraint in H.
+  destruct c as [kd k [f n|f]|f n|ix f n|f|fs|t| |kind]; try discriminate.
+  - destruct (fpos design f); [|discriminate]. destruct (lpos p f n); [|discriminate]. inversion H; subst. destruct kd; reflexivity.
+  - destruct (fpos design f); [|discriminate]. inversion H; subst. cbn [desugar_constraint option_map]. apply forallb_forall.
+    intros c0 Hc0. apply in_map_iff in Hc0. destruct Hc0 as [l [<- _]]. destruct kd; reflexivity.
+  - destruct (fpos design f); [|discriminate]. destruct (lpos p f n); [|discriminate]. inversion H; subst. reflexivity.
+  - destruct (fpos design f); [|discriminate]. destruct (lpos p f n); [|discriminate]. inversion H; subst. reflexivity.
+  - inversion H; subst. reflexivity.
+Qed.
+
+Lemma in_combine_seq : forall {A} (l : list A) s i x, In (i, x) (combine (seq s (List.length l)) l) -> s <= i /\ nth_error l (i - s) = Some x.
+Proof.
+  intros A l. induction l as [|y l IH]; intros s i x H; [contradiction|]. cbn [List.length seq combine] in H. destruct H as [E|H].
+  - inversion E; subst. split; [lia|]. rewrite Nat.sub_diag. reflexivity.
+  - destruct (IH (Datatypes.S s) i x H) as [H1 H2]. split; [lia|]. replace (i - s) with (Datatypes.S (i - Datatypes.S s)) by lia. exact H2.
+Qed.
+
+Lemma design_entry : forall i fd, In (i, fd) (combine (seq 0 (List.length (fl_design fb))) (fl_design fb)) ->
+  exists f, nth_error design i = Some f /\ fd = mkff p f /\ i < List.length design.
+Proof.
+  intros i fd H. apply in_combine_seq in H. destruct H as [_ H]. rewrite Nat.sub_0_r, Hd in H. unfold fds in H. rewrite nth_error_map in H.
+  destruct (nth_error design i) as [f|] eqn:E; [|discriminate]. inversion H. exists f. split; [reflexivity|]. split; [reflexivity|].
+  apply nth_error_Some. congruence.
+Qed.
+
+Lemma plain_in_f1 : forall w,
+  fl_sizes fb = [Sz] -> fl_weights fb = [w] -> 0 < Sz * w -> fl_preambles fb = [0] ->
+  fl_constraints fb = map (init_wb g) (FCross :: FConsistency :: flat_map (desugar_constraint fds) ics) ->
+  fl_exclude fb = excl -> fl_excluded_derived fb = [] -> Forall kpos cs ->
+  in_f1 fb = true.
+Proof.
+  intros w Hsz Hw Hwpos Hpre Hcons Hex Hexd Hk. unfold in_f1. rewrite !andb_true_iff. repeat split.
+  - apply forallb_forall. intros [i fd] Hin. destruct (design_entry i fd Hin) as [f [Hn [-> Hi]]]. cbn [fst snd].
+    rewrite (isact_lt i Hi). cbn [negb orb]. unfold factor_f1, mkff. cbn [ff_levels ff_window ff_complex].
+    assert (Hl : 0 < nlv p f) by (apply Hlev; eapply nth_error_In; eauto). unfold nlv in Hl.
+    destruct (plevels p f); [cbn in Hl; lia|reflexivity].
+  - apply forallb_forall. intros [i fd] Hin. destruct (design_entry i fd Hin) as [f [Hn [-> Hi]]]. cbn [fst snd].
+    unfold tables_ok, tables_unambiguous, mkff. cbn [ff_window]. rewrite orb_true_r. reflexivity.
+  - unfold act_sorted. rewrite Hact, Hd. unfold fds. rewrite map_length.
+    rewrite filter_all by (intros i Hi; apply in_seq in Hi; apply isact_lt; lia). apply list_nat_eqb_refl.
+  - apply forallb_forall. intros [i fd] Hin. destruct (design_entry i fd Hin) as [f [Hn [-> Hi]]]. cbn [fst snd].
+    unfold implied_ok. rewrite (isact_lt i Hi). reflexivity.
+  - unfold sustains_ok. rewrite Hs. cbn [forallb Nat.ltb Nat.leb Nat.eqb andb orb]. rewrite andb_true_r.
+    apply forallb_forall. intros [i fd] Hin. destruct (design_entry i fd Hin) as [f [Hn [-> Hi]]]. cbn [fst snd].
+    unfold grid_factor. rewrite (isact_lt i Hi), not_complex_all. reflexivity.
+  - rewrite Hs, Hc. reflexivity.
+  - rewrite Hc. cbn [crossings_f1]. rewrite andb_true_r. unfold crossing_f1. rewrite !andb_true_iff. repeat split.
+    + apply forallb_forall. intros c Hcin. unfold cr in Hcin. apply in_map_iff in Hcin. destruct Hcin as [f [<- Hf]].
+      assert (Hi : pos design f < List.length design) by (apply nth_error_Some; rewrite (Hpos f Hf); discriminate).
+      rewrite (isact_lt _ Hi), stride1_all. cbn [andb]. unfold start_of. rewrite (factor_at_design _ f (Hpos f Hf)). reflexivity.
+    + rewrite Hsz. cbn [nth]. unfold crossing_weight. rewrite Hc. cbn [crossing_ind]. rewrite list_nat_eqb_refl, Hw. cbn [nth].
+      apply Nat.ltb_lt. exact Hwpos.
+    + unfold preamble_size. rewrite Hal, Hpre, Htr. cbn [nth]. apply Nat.ltb_lt. exact HT.
+    + apply nonempty_map_match. exact Hne.
+  - rewrite Hc. cbn [forallb]. rewrite andb_true_r. apply list_nat_nodup_of. apply NoDup_cr.
+  - rewrite Hcons. cbn [map forallb init_wb constraint_f1 andb].
+    apply (constraint_f1_all cs ics Hics Hk).
+  - rewrite Hcons. reflexivity.
+  - rewrite Hcons. reflexivity.
+  - unfold derivations_match. apply andb_true_iff. split.
+    + apply forallb_forall. intros [i fd] Hin. destruct (design_entry i fd Hin) as [f [Hn [-> Hi]]]. reflexivity.
+    + rewrite Hcons. cbn [map forallb init_wb andb]. apply forallb_forall. intros c Hcin. apply in_map_iff in Hcin.
+      destruct Hcin as [c0 [<- Hc0]]. apply in_flat_map in Hc0. destruct Hc0 as [ic [Hic Hc0]].
+      assert (Hex' : exists c', plain_constraint p design c' = Some ic).
+      { apply (Forall2_in_r _ cs ics ic Hics Hic). }
+      destruct Hex' as [c' Hc'].
+      pose proof (not_deriv_one c' ic Hc') as Hnd. rewrite forallb_forall in Hnd. specialize (Hnd c0 Hc0).
+      destruct (init_wb g c0); try reflexivity; discriminate.
+  - unfold exclude_backed. rewrite Hex, Hcons. apply forallb_forall. intros [f l] Hin. unfold excl, excluded_levels in Hin.
+    apply in_flat_map in Hin. destruct Hin as [ic [Hic Hin]]. destruct ic as [c1|]; [|contradiction]. destruct c1; try contradiction.
+    destruct Hin as [E|[]]. inversion E; subst. apply existsb_exists. exists (FExclude f l). split.
+    + cbn [map]. right. right. apply in_map_iff. exists (FExclude f l). split; [reflexivity|]. apply in_flat_map.
+      exists (ICon (FExclude f l)). split; [exact Hic|left; reflexivity].
+    + cbn. rewrite !Nat.eqb_refl. reflexivity.
+  - unfold no_excluded_derived. rewrite Hexd. reflexivity.
+Qed.
+
 End InF1.
+
+Theorem plain_flat_in_f1 : forall fb,
+  create_flat (the_ci p design crossing ics rcc ef) = FOk fb -> Forall kpos cs ->
+  in_f1 fb = true /\ 0 < Compile.T fb.
+Proof.
+  intros fb Hfb Hk.
+  destruct (create_flat_ci p design crossing Hpos Hne ics rcc ef fb Hfb) as [HS Efb]. fold Sz in HS.
+  set (T := Nat.max (Nat.max Sz 1) M) in *. set (w := ceil_div T Sz).
+  set (ci := the_ci p design crossing ics rcc ef) in *.
+  set (g := st_geometry ci [0] (pT p design crossing ics rcc ef)) in *.
+  assert (EpT : Z.to_nat (pT p design crossing ics rcc ef) = T) by (rewrite pT_eq; apply Nat2Z.id).
+  assert (Epw : Z.to_nat (pw p design crossing ics rcc ef) = w) by (rewrite (pw_eq HS); apply Nat2Z.id).
+  rewrite EpT, Epw in Efb.
+  assert (HT : 0 < T) by (unfold T; lia).
+  assert (Htr : fl_trials fb = T) by (rewrite Efb; reflexivity).
+  split; [|unfold Compile.T; rewrite Htr; exact HT].
+  assert (Hd : fl_design fb = fds) by (rewrite Efb; reflexivity).
+  assert (Hact : fl_act fb = seq 0 (List.length design)) by (rewrite Efb; cbn [mkflat fl_act]; apply st_act_ci).
+  assert (Hc : fl_crossings fb = [cr]) by (rewrite Efb; reflexivity).
+  assert (Hs : fl_sustains fb = [1]) by (rewrite Efb; reflexivity).
+  assert (Hal : fl_alignment fb = EqualPreamble) by (rewrite Efb; reflexivity).
+  assert (Hgt : g_trials g = T) by (unfold g, st_geometry; cbn [g_trials]; exact EpT).
+  assert (Hgp : g_preamble g = 0).
+  { unfold g, st_geometry. cbn [g_preamble]. unfold ci. rewrite (st_crossings_ci p design crossing Hpos Hne ics rcc ef). reflexivity. }
+  assert (Hgs : forall kv, In kv (g_sustain g) -> snd kv = 1).
+  { intros kv Hin. unfold g, st_geometry in Hin. cbn [g_sustain] in Hin. apply in_map_iff in Hin. destruct Hin as [f [<- _]]. reflexivity. }
+  assert (Hsz : fl_sizes fb = [Sz]) by (rewrite Efb; reflexivity).
+  assert (Hw : fl_weights fb = [w]) by (rewrite Efb; reflexivity).
+  assert (Hwpos : 0 < Sz * w).
+  { assert (0 < w) by (unfold w, ceil_div; apply Nat.div_str_pos; lia). nia. }
+  assert (Hpre : fl_preambles fb = [0]) by (rewrite Efb; reflexivity).
+  assert (Hcons : fl_constraints fb = map (init_wb g) (FCross :: FConsistency :: flat_map (desugar_constraint fds) ics)).
+  { rewrite Efb. cbn [mkflat fl_constraints]. rewrite app_nil_r. unfold ci. rewrite st_cons_ci. reflexivity. }
+  assert (Hex : fl_exclude fb = excl).
+  { rewrite Efb. cbn [mkflat fl_exclude]. unfold ci. rewrite st_cons_ci. unfold st_exclude at 1. cbn [flat_map app]. apply st_exclude_desugar. }
+  assert (Hexd : fl_excluded_derived fb = []) by (rewrite Efb; reflexivity).
+  eapply (plain_in_f1 T HT fb) with (g := g) (w := w); eassumption.
+Qed.
 
 End Main.
